@@ -17,10 +17,14 @@ Kernels (DESIGN.md section 4, C16):
 All symbolic variables are selectors over finite catalogues (DESIGN.md: [selector]): the certificate is the
 exhaustion of the path tree.
 
-Regions (known_findings.json) in which exactly violates the statement on the pinned tree:
-  junit-act-syntax-error          JUnit reporter + a case that ends with the act-phase SYNTAX_ERROR: shown as a passing testcase
+Regions (switched on by known_findings.json while a defect is listed there; all of them are repaired in /repo now):
+  junit-act-syntax-error          JUnit reporter + a case that ends with the act-phase SYNTAX_ERROR (fixed a4585db)
   case-listed-twice               a case file named by two lines of one [cases] section is processed once per line
-  reference-through-regular-file  a reference like `1.case/x` (below a regular file): NotADirectoryError escapes, no INVALID_SUITE
+                                  (decided: that is what "listed" means - _C16_lib.LITERAL_ONCE_EACH = False)
+  reference-through-regular-file  a reference like `1.case/x` below a regular file (fixed b4c577f)
+  overlong-file-name              a plain reference longer than NAME_MAX: OSError escaped (K2 long-name; fixed c3cda56)
+  suite-file-not-utf8             a suite file that is not valid UTF-8: UnicodeDecodeError escaped (K2 broken; fixed 6de5e53)
+  junit-control-characters        JUnit report not well-formed when a message holds a control character (K3; fixed a842fe5)
 """
 from typing import List
 
